@@ -459,6 +459,9 @@ fn if_helper<'a, 'b: 'a>(w: &mut Vec<u8>,
 	 label: &'b Label,
 	 opcode: u8, opposite_opcode: u8
 ) -> Result<()> {
+	// the position of the GOTO_W of the long form: +1 for the opposite_opcode, +2 for its branch
+	let goto_w_pos = || opcode_pos.checked_add(1 + 2).context("code size exceeds 65535 bytes");
+
 	if let Some(target) = labels.get(label) {
 		let branch = compute_signed_offset(opcode_pos, target);
 
@@ -467,7 +470,7 @@ fn if_helper<'a, 'b: 'a>(w: &mut Vec<u8>,
 			w.write_i16(branch)?;
 		} else {
 			// +1 for the opcode, +2 for the branch
-			let branch = compute_signed_offset(opcode_pos + 1 + 2, target);
+			let branch = compute_signed_offset(goto_w_pos()?, target);
 
 			w.write_u8(opposite_opcode)?;
 			// target the instruction after the GOTO_W
@@ -479,7 +482,7 @@ fn if_helper<'a, 'b: 'a>(w: &mut Vec<u8>,
 	} else if wide.contains(&instruction_index) {
 		unwritten.push(UnwrittenLabel {
 			// target the goto_w instruction: +1 for the opposite_opcode, +2 for the branch
-			opcode_pos: opcode_pos + 1 + 2,
+			opcode_pos: goto_w_pos()?,
 			instruction_index,
 			label,
 			// target the branch of the goto_w instruction:
